@@ -18,6 +18,10 @@ pub struct Cfg {
     pub num_pages: usize,
     pub strict: bool,
     pub populate: bool,
+    /// `direct_writes(true)` (O_DIRECT): the fifth open option; the property's text names four, the
+    /// builder has five, and the promise "options change performance, not behaviour" reads the same for it
+    #[serde(default)]
+    pub direct: bool,
 }
 
 pub const SIZES: [u64; 9] = [1024, 1032, 2048, 3000, 4096, 5000, 16384, 65536, 1 << 20];
@@ -31,7 +35,7 @@ pub fn configs(thorough: bool) -> Vec<Cfg> {
             for np in PAGES {
                 for strict in [false, true] {
                     for populate in [false, true] {
-                        v.push(Cfg { pagesize: ps, num_pages: np, strict, populate });
+                        v.push(Cfg { pagesize: ps, num_pages: np, strict, populate, direct: false });
                     }
                 }
             }
@@ -46,11 +50,14 @@ pub fn configs(thorough: bool) -> Vec<Cfg> {
                 }
                 let strict = (i + j) % 2 == 0;
                 let populate = (i + 2 * j) % 4 < 2;
-                v.push(Cfg { pagesize: *ps, num_pages: *np, strict, populate });
+                v.push(Cfg { pagesize: *ps, num_pages: *np, strict, populate, direct: false });
             }
         }
-        v.push(Cfg { pagesize: 1024, num_pages: 4, strict: true, populate: true });
-        v.push(Cfg { pagesize: 4096, num_pages: 32, strict: false, populate: false });
+        v.push(Cfg { pagesize: 1024, num_pages: 4, strict: true, populate: true, direct: false });
+        v.push(Cfg { pagesize: 4096, num_pages: 32, strict: false, populate: false, direct: false });
+        v.push(Cfg { pagesize: 1024, num_pages: 4, strict: false, populate: false, direct: true });
+        v.push(Cfg { pagesize: 4096, num_pages: 32, strict: true, populate: true, direct: true });
+        v.push(Cfg { pagesize: 5000, num_pages: 4, strict: false, populate: true, direct: true });
     }
     v
 }
@@ -379,7 +386,12 @@ pub fn run(ctx: &Ctx) -> Shard {
                 let _ = std::fs::write(cu, serde_json::to_vec(&serde_json::json!({"kind": "history", "history": hc})).unwrap());
             }
             let path = scratch.fresh("c16");
+            exec::set_direct_writes(c.direct);
             let out = exec::run_history(&hc, &exec_cfg(), &path);
+            exec::set_direct_writes(false);
+            if c.direct {
+                shard.count("histories_with_direct_writes", 1);
+            }
             let _ = std::fs::remove_file(&path);
             shard.evaluations += 1;
             let hh = util::fnv64(format!("{:?}|{}", c, h.hash()).as_bytes());
@@ -388,7 +400,7 @@ pub fn run(ctx: &Ctx) -> Shard {
                 shard.nontrivial.insert(hh);
             }
             total.merge(&out.stats);
-            shard.set("configurations(pagesize,pages,strict,populate)", format!("{} {} {} {}", c.pagesize, c.num_pages, c.strict, c.populate));
+            shard.set("configurations(pagesize,pages,strict,populate)", format!("{} {} {} {}{}", c.pagesize, c.num_pages, c.strict, c.populate, if c.direct { " direct" } else { "" }));
             shard.count(&format!("histories_at_pagesize_{}", c.pagesize), 1);
             if c.strict {
                 shard.count("commits_under_strict_mode", out.stats.commits);
@@ -406,34 +418,34 @@ pub fn run(ctx: &Ctx) -> Shard {
     // growth runs: from the 4-page minimum file through several extension steps
     let growth: Vec<(usize, usize, Cfg)> = if ctx.thorough() {
         vec![
-            (40, 512, Cfg { pagesize: 4096, num_pages: 4, strict: false, populate: false }),
-            (40, 512, Cfg { pagesize: 1024, num_pages: 4, strict: true, populate: true }),
-            (30, 3072, Cfg { pagesize: 16384, num_pages: 4, strict: false, populate: true }),
-            (60, 1024, Cfg { pagesize: 5000, num_pages: 4, strict: false, populate: false }),
-            (30, 256, Cfg { pagesize: 1032, num_pages: 4, strict: true, populate: false }),
-            (70, 2048, Cfg { pagesize: 65536, num_pages: 4, strict: false, populate: false }),
+            (40, 512, Cfg { pagesize: 4096, num_pages: 4, strict: false, populate: false, direct: false }),
+            (40, 512, Cfg { pagesize: 1024, num_pages: 4, strict: true, populate: true, direct: false }),
+            (30, 3072, Cfg { pagesize: 16384, num_pages: 4, strict: false, populate: true, direct: false }),
+            (60, 1024, Cfg { pagesize: 5000, num_pages: 4, strict: false, populate: false, direct: false }),
+            (30, 256, Cfg { pagesize: 1032, num_pages: 4, strict: true, populate: false, direct: false }),
+            (70, 2048, Cfg { pagesize: 65536, num_pages: 4, strict: false, populate: false, direct: false }),
         ]
     } else {
         vec![
-            (30, 512, Cfg { pagesize: 4096, num_pages: 4, strict: false, populate: false }),
-            (26, 1024, Cfg { pagesize: 1024, num_pages: 4, strict: true, populate: true }),
-            (26, 3072, Cfg { pagesize: 5000, num_pages: 4, strict: false, populate: true }),
+            (30, 512, Cfg { pagesize: 4096, num_pages: 4, strict: false, populate: false, direct: false }),
+            (26, 1024, Cfg { pagesize: 1024, num_pages: 4, strict: true, populate: true, direct: false }),
+            (26, 3072, Cfg { pagesize: 5000, num_pages: 4, strict: false, populate: true, direct: false }),
         ]
     };
     // directed growth histories: bulk load in one commit; walking the high-water mark over the end of the file
     let mut directed: Vec<(History, Cfg)> = vec![
-        (bulk_growth_history(12), Cfg { pagesize: 4096, num_pages: 4, strict: false, populate: false }),
-        (bulk_growth_history(20), Cfg { pagesize: 1024, num_pages: 4, strict: true, populate: false }),
-        (boundary_walk_history(5000), Cfg { pagesize: 5000, num_pages: 4, strict: false, populate: false }),
-        (boundary_walk_history(3000), Cfg { pagesize: 3000, num_pages: 4, strict: true, populate: false }),
+        (bulk_growth_history(12), Cfg { pagesize: 4096, num_pages: 4, strict: false, populate: false, direct: false }),
+        (bulk_growth_history(20), Cfg { pagesize: 1024, num_pages: 4, strict: true, populate: false, direct: false }),
+        (boundary_walk_history(5000), Cfg { pagesize: 5000, num_pages: 4, strict: false, populate: false, direct: false }),
+        (boundary_walk_history(3000), Cfg { pagesize: 3000, num_pages: 4, strict: true, populate: false, direct: false }),
     ];
-    directed.push((huge_value_history(4096), Cfg { pagesize: 4096, num_pages: 4, strict: false, populate: false }));
+    directed.push((huge_value_history(4096), Cfg { pagesize: 4096, num_pages: 4, strict: false, populate: false, direct: false }));
     if ctx.thorough() {
-        directed.push((huge_value_history(1024), Cfg { pagesize: 1024, num_pages: 4, strict: true, populate: false }));
-        directed.push((huge_value_history(65536), Cfg { pagesize: 65536, num_pages: 4, strict: false, populate: true }));
-        directed.push((bulk_growth_history(28), Cfg { pagesize: 16384, num_pages: 32, strict: false, populate: true }));
-        directed.push((boundary_walk_history(1032), Cfg { pagesize: 1032, num_pages: 4, strict: false, populate: false }));
-        directed.push((boundary_walk_history(5000), Cfg { pagesize: 5000, num_pages: 32, strict: true, populate: true }));
+        directed.push((huge_value_history(1024), Cfg { pagesize: 1024, num_pages: 4, strict: true, populate: false, direct: false }));
+        directed.push((huge_value_history(65536), Cfg { pagesize: 65536, num_pages: 4, strict: false, populate: true, direct: false }));
+        directed.push((bulk_growth_history(28), Cfg { pagesize: 16384, num_pages: 32, strict: false, populate: true, direct: false }));
+        directed.push((boundary_walk_history(1032), Cfg { pagesize: 1032, num_pages: 4, strict: false, populate: false, direct: false }));
+        directed.push((boundary_walk_history(5000), Cfg { pagesize: 5000, num_pages: 32, strict: true, populate: true, direct: false }));
     }
     for (di, (h0, c)) in directed.iter().enumerate() {
         if (di as u64 + 9) % ctx.nshards != ctx.shard {
